@@ -33,6 +33,7 @@ AccOk(r) ==
        /\ IntEq(r.i32.v, i.v) /\ ErrOk(i.errno, r.i32.errno)
        /\ r.bool = N!GetBool(s)
        /\ DblOk(r)
+       /\ r.ambient_same            \* the values do not depend on the errno in effect when the accessor is entered
 IncOk(r) ==
     LET x == N!IncResult(r.store, N!MkInt(r.v.neg, r.v.m), N!MkInt(r.inc.neg, r.inc.m)) IN
     r.ret = 1 /\ IntEq(r.after, x.v)
